@@ -1,9 +1,14 @@
-(* C03 -- released resources come back exactly once and completely
-   (scheduler side; the executor's "exactly one unschedule message per task"
-   is property C07).  Statements only. *)
+(* C03 -- released resources come back exactly once and completely.
+   Module SchedSide: the scheduler's bookkeeping (node map, holder count).
+   Module ExecSide : the executor asks for the release exactly once per task,
+   over every schedule of its four threads (RP.Exec.Model).  Statements only. *)
 From Coq Require Import ZArith List Bool.
-From RP Require Import Sched.Model Sched.NodeMap Sched.Inv Sched.SchedProofs Sched.RunProofs.
+From RP Require Sched.Model Sched.NodeMap Sched.Inv Sched.SchedProofs Sched.RunProofs.
+From RP Require Exec.Model Exec.Oracle Exec.Proofs Exec.ReleaseProofs.
 Import ListNotations.
+
+Module SchedSide.
+Import RP.Sched.Model RP.Sched.NodeMap RP.Sched.Inv RP.Sched.SchedProofs RP.Sched.RunProofs.
 Open Scope Z_scope.
 
 (* giving back restores precisely what was taken: after the release of a held
@@ -71,3 +76,24 @@ Example C03_nonvacuous :
   | None => False
   end.
 Proof. vm_compute. auto. Qed.
+
+End SchedSide.
+
+Module ExecSide.
+Import RP.Exec.Model RP.Exec.Oracle RP.Exec.Proofs RP.Exec.ReleaseProofs.
+
+(* "exactly once, whatever way it ends (success, failure, cancellation,
+   timeout, launch error)", including releases racing with cancellation: for
+   every scenario (any number of tasks, launch-fault points, run-time limits,
+   cancel messages) and EVERY schedule of the executor's intake, process
+   watcher, timeout watcher and cancel handler, a received task's resources
+   are asked to be released at most once at any time and exactly once when
+   the executor has come to rest *)
+Theorem C03_executor_releases_exactly_once :
+  forall (sc : scenario) (sched : list choice) (s : state) (tr : list stepobs) (u : Z),
+    NoDup (delivered sc) -> In u (delivered sc) -> run (init sc) sched = (s, tr) ->
+    (n_uns u (emissions tr) <= 1)%nat /\ (quiescent s = true -> n_uns u (emissions tr) = 1%nat).
+Proof. exact released_exactly_once. Qed.
+Print Assumptions C03_executor_releases_exactly_once.
+
+End ExecSide.
